@@ -9,8 +9,10 @@
    [bnv] is id-free: models are addressed by name (EBLIFParser.BlackboxHolder.name_lookup),
    ports and cables by name inside a model, instances by their position in the children list
    (nothing is ever removed from it), pins by (port name, bit).  A wire is the list of pins
-   connected to it; a cable the list of its wires.  [m_orphans] holds the cables that
-   [make_blackbox] removed with remove_cables_from: their wires keep their pins.
+   connected to it; a cable the list of its wires.  [m_orphans] is the place for cables that were
+   detached from the model while their wires still hold pins; since the repair of make_blackbox
+   (it now disconnects every pin before remove_cables_from) the reader never puts anything there,
+   which is what the self-containedness clause of WF says.
    No proofs in this file. *)
 From Coq Require Import List Arith NArith Bool Lia.
 From Coq Require String.
@@ -135,7 +137,7 @@ Record model := mkModel {
   m_name : str;
   m_ports : list port;
   m_cables : list cable;
-  m_orphans : list cable;            (* cables detached by .blackbox; wires keep their pins *)
+  m_orphans : list cable;            (* detached cables whose wires keep pins: always [] (see above) *)
   m_insts : list inst;
   m_clock : option (list str);       (* EBLIF.clock *)
   m_lib : lib;
